@@ -15,8 +15,11 @@ Local Open Scope list_scope.
 (* ---------- the abstraction ---------- *)
 (* the two mutexes of samlidp: Server.idpConfigMu and MemoryStore.mu *)
 Inductive mutex := IdpConfigMu | Mu.
-(* the two guarded locations: Server.serviceProviders and MemoryStore.data *)
-Inductive loc := ServiceProviders | Data.
+(* guarded locations: Server.serviceProviders and MemoryStore.data, and any
+   other field of Server (or of its IDP) resp. MemoryStore that some function
+   reachable from an entry point assigns — fields are immutable after New
+   unless a handler writes them, and then they need the owner's mutex *)
+Inductive loc := ServiceProviders | Data | ServerField (f : string) | StoreField (f : string).
 Definition fname := string.
 
 Inductive act :=
@@ -30,7 +33,7 @@ Inductive act :=
 Definition program := list (fname * list act).
 
 Definition guard (l : loc) : mutex :=
-  match l with ServiceProviders => IdpConfigMu | Data => Mu end.
+  match l with ServiceProviders | ServerField _ => IdpConfigMu | Data | StoreField _ => Mu end.
 (* the fixed acquisition order: IdpConfigMu before Mu *)
 Definition rank (m : mutex) : Z := match m with IdpConfigMu => 0 | Mu => 1 end.
 Definition all_mutexes : list mutex := [IdpConfigMu; Mu].
@@ -38,7 +41,13 @@ Definition all_mutexes : list mutex := [IdpConfigMu; Mu].
 Definition mutex_eqb (a b : mutex) : bool :=
   match a, b with IdpConfigMu, IdpConfigMu => true | Mu, Mu => true | _, _ => false end.
 Definition loc_eqb (a b : loc) : bool :=
-  match a, b with ServiceProviders, ServiceProviders => true | Data, Data => true | _, _ => false end.
+  match a, b with
+  | ServiceProviders, ServiceProviders => true
+  | Data, Data => true
+  | ServerField x, ServerField y => String.eqb x y
+  | StoreField x, StoreField y => String.eqb x y
+  | _, _ => false
+  end.
 
 (* what one thread holds: per mutex, nothing / shared (Some false) / exclusive (Some true) *)
 Record held := { h_cfg : option bool; h_mu : option bool }.
@@ -128,6 +137,39 @@ Definition expand (p : program) (ep : fname) : option (list act) :=
 
 Definition entry_ok (p : program) (ep : fname) : bool :=
   match expand p ep with Some l => check_flat l | None => false end.
+
+(* diagnostics for a failing obligation: per rejected entry point, the first
+   action of its inlined code that breaks the discipline (None: a call could
+   not be inlined, or a lock is still held at the end) *)
+Fixpoint first_bad (l : list act) (h : held) : option act :=
+  match l with
+  | [] => None
+  | a :: r => match step_flat a h with Some h' => first_bad r h' | None => Some a end
+  end.
+(* why a call tree could not be inlined: the first Unsupported construct, a call
+   to a function that was not translated, or recursion *)
+Fixpoint inline_bad (fuel : nat) (p : program) (l : list act) {struct fuel} : option act :=
+  match fuel with
+  | O => Some (Unsupported "call depth exceeded (recursion)")
+  | S k =>
+      (fix go (l : list act) : option act :=
+         match l with
+         | [] => None
+         | Call f :: r =>
+             match lookup_fn f p with
+             | None => Some (Call f)
+             | Some body => match inline_bad k p body with Some a => Some a | None => go r end
+             end
+         | Unsupported w :: _ => Some (Unsupported w)
+         | _ :: r => go r
+         end) l
+  end.
+Definition discipline_report (p : program) (eps : list fname) : list (fname * option act) :=
+  flat_map (fun ep => if entry_ok p ep then []
+                      else [(ep, match expand p ep with
+                                 | Some l => first_bad l hempty
+                                 | None => inline_bad (S (List.length p)) p [Call ep]
+                                 end)]) eps.
 
 (* the obligation regenerated from the source on every run *)
 Definition discipline_ok (p : program) (eps : list fname) : bool :=
